@@ -12,6 +12,7 @@ import (
 	"github.com/ipld/go-ipld-prime/codec"
 	"io"
 	"io/fs"
+	"os"
 	"runtime"
 	"sync"
 	"syscall"
@@ -71,10 +72,29 @@ var faultKinds = []struct {
 	{"wraps-io.ErrUnexpectedEOF", io.ErrUnexpectedEOF},
 	{"wraps-context.Canceled", context.Canceled},
 	{"wraps-io.ErrShortWrite", io.ErrShortWrite},
+	{"wraps-fs.ErrPermission", &fs.PathError{Op: "open", Path: "/blocks/xx", Err: syscall.EACCES}},
+	{"wraps-os.ErrDeadlineExceeded", os.ErrDeadlineExceeded},
+	{"wraps-ENOSPC", &fs.PathError{Op: "write", Path: "/blocks/xx", Err: syscall.ENOSPC}},
+	{"wraps-fs.ErrExist", fs.ErrExist},
+	{"wraps-classy", classyErr{}},
+}
+
+// classyErr answers yes to the usual error-classification probes (Timeout, Temporary, NotFound, and errors.Is against the
+// fs sentinels): code that sorts errors into "skip it", "retry later" or "does not exist" must not do so with a storage
+// failure it was handed by the link system.
+type classyErr struct{}
+
+func (classyErr) Error() string   { return "verif-injected: storage unavailable (classy)" }
+func (classyErr) Timeout() bool   { return true }
+func (classyErr) Temporary() bool { return true }
+func (classyErr) NotFound() bool  { return true }
+func (classyErr) Is(target error) bool {
+	return target == fs.ErrNotExist || target == fs.ErrPermission || target == os.ErrDeadlineExceeded
 }
 
 // bareFaults are error values a storage adapter may return unwrapped.
-var bareFaults = []error{io.EOF, io.ErrUnexpectedEOF, context.Canceled, fs.ErrNotExist, &fs.PathError{Op: "open", Path: "/blocks/verif-injected", Err: syscall.ENOENT}}
+var bareFaults = []error{io.EOF, io.ErrUnexpectedEOF, context.Canceled, fs.ErrNotExist, &fs.PathError{Op: "open", Path: "/blocks/verif-injected", Err: syscall.ENOENT},
+	fs.ErrPermission, &fs.PathError{Op: "open", Path: "/blocks/verif-injected", Err: syscall.EACCES}, context.DeadlineExceeded, io.ErrClosedPipe, classyErr{}}
 
 // genWriteFaultKind is genFaultKind for WRITE faults, where the verdict is only "an error and no link": it also draws the
 // bare values (negative kinds: -1-i selects bareFaults[i]).
@@ -112,6 +132,13 @@ func isInjected(err error) bool {
 	return bytes.Contains([]byte(err.Error()), []byte("verif-injected"))
 }
 
+// sessionCtx is the context every harness-made request carries: a store with RequireSession set serves only loads whose
+// LinkContext still has it (a store that picks the tenant, the session or the credentials from the request context).
+type sessionKey struct{}
+
+var sessionCtx = context.WithValue(context.Background(), sessionKey{}, "verif-session")
+var lcS = ipld.LinkContext{Ctx: sessionCtx}
+
 type Store struct {
 	mu     sync.Mutex
 	Blocks map[cid.Cid][]byte
@@ -144,6 +171,12 @@ type Store struct {
 	// block is served all the same, as a store that does not look at contexts does
 	CancelAt int
 	Cancel   func()
+
+	// RequireSession: read opens whose LinkContext does not carry sessionCtx's value fail (injected fault "request context
+	// lost"): the library has to pass the context it was given on to every load it makes on behalf of that request
+	RequireSession bool
+	// Trusted: link systems made for this store have TrustedStorage set
+	Trusted bool
 
 	// Yield: every read open, write open and commit first gives up the processor (runtime.Gosched), as a store that
 	// blocks on I/O does: in checks that run several goroutines this opens the windows between a library call's steps
@@ -202,8 +235,14 @@ func (s *Store) Len() int {
 	return len(s.Blocks)
 }
 
-func (s *Store) openRead(_ linking.LinkContext, l datamodel.Link) (io.Reader, error) {
+func (s *Store) openRead(lc linking.LinkContext, l datamodel.Link) (io.Reader, error) {
 	c := l.(cidlink.Link).Cid
+	if s.RequireSession && (lc.Ctx == nil || lc.Ctx.Value(sessionKey{}) != "verif-session") {
+		s.mu.Lock()
+		s.Reads = append(s.Reads, c)
+		s.mu.Unlock()
+		return nil, &ioFault{what: "request context lost: load of " + c.String() + " arrived without the session of the request it belongs to"}
+	}
 	if s.Yield {
 		runtime.Gosched()
 	}
@@ -307,6 +346,7 @@ func (s *Store) LinkSystem() *ipld.LinkSystem {
 
 func (s *Store) LinkSystemVariant(variant int) *ipld.LinkSystem {
 	ls := s.linkSystemVariant(variant)
+	ls.TrustedStorage = s.Trusted
 	if s.PieceWrites > 0 {
 		// an encoder that hands the block to storage in several Write calls (a streaming encoder, or one behind a small
 		// buffered writer) - the stock dag-pb and raw encoders happen to use one Write per block
@@ -389,7 +429,7 @@ func protoChooser(l datamodel.Link, _ linking.LinkContext) (datamodel.NodeProtot
 
 // loadPlain loads the un-reified node behind c.
 func loadPlain(ls *ipld.LinkSystem, c cid.Cid) (datamodel.Node, error) {
-	return ls.Load(ipld.LinkContext{}, cidlink.Link{Cid: c}, protoForCid(c))
+	return ls.Load(lcS, cidlink.Link{Cid: c}, protoForCid(c))
 }
 
 // loadReified loads c and passes it through the named reifier ("unixfs" or "unixfs-preload").
@@ -398,7 +438,7 @@ func loadReified(ls *ipld.LinkSystem, c cid.Cid, reifier string) (datamodel.Node
 	if err != nil {
 		return nil, err
 	}
-	return ls.KnownReifiers[reifier](ipld.LinkContext{}, n, ls)
+	return ls.KnownReifiers[reifier](lcS, n, ls)
 }
 
 var lc0 = ipld.LinkContext{}
